@@ -50,15 +50,15 @@ def configs_for(entry, tier, rng, small_values=(1, 2, 3, 4, 5), max_alt=None):
     """default configuration + alternative small configurations (admissible ones only).
 
     The alternatives are chosen greedily so that together they cover as many ORDER RELATIONS between pairs of
-    parameters (p_i far below / one below / equal to / one above / far above p_j) as possible: amounts that coincide when two periods are equal or ordered one way
+    parameters (p_i at most a third of / far below / one below / equal to / one above / far above / at least three times p_j) as possible: amounts that coincide when two periods are equal or ordered one way
     are exactly what the default configurations (and the pinned tests) cannot tell apart."""
     k = len(entry["params"])
     cfgs = [list(entry["default"])]
     if k == 0:
         return cfgs
     if max_alt is None:
-        # two parameters: the four relation classes the default does not cover
-        max_alt = (2 if k == 1 else 4) if tier == "quick" else 8
+        # two parameters: the six relation classes the default does not cover (fewer where Valid excludes some)
+        max_alt = (2 if k == 1 else 6 if k == 2 else 5) if tier == "quick" else 8
     # 5 (not 4) in the quick pool: several buffer sizes only become insufficient from a period difference of 4 on
     pool = [v for v in small_values if v != 4] if tier == "quick" else list(small_values) + [7]
     cands = list(itertools.product(pool, repeat=k)) if len(pool) ** k <= 4096 else \
@@ -76,7 +76,10 @@ def configs_for(entry, tier, rng, small_values=(1, 2, 3, 4, 5), max_alt=None):
                 d = c[i] - c[j]
                 # five classes: far below, one below, equal, one above, far above - guards and clamps on a period
                 # difference (lag > 0 written as lag > 1, ...) only show when two periods differ by exactly one
-                rel.add((i, j, 0 if d == 0 else (1 if d > 0 else -1) * (1 if abs(d) == 1 else 2)))
+                # ... and a buffer sized by the wrong one of two periods only runs out when one is a multiple of the other:
+                # "far" is split at a ratio of 3
+                mag = 1 if abs(d) == 1 else (3 if max(c[i], c[j]) >= 3 * min(c[i], c[j]) else 2)
+                rel.add((i, j, 0 if d == 0 else (1 if d > 0 else -1) * mag))
         return rel
     covered = relations(tuple(cfgs[0])) if all(isinstance(x, int) for x in cfgs[0]) else set()
     chosen = []
@@ -84,6 +87,8 @@ def configs_for(entry, tier, rng, small_values=(1, 2, 3, 4, 5), max_alt=None):
         # boundary relations (equal, one apart) first: defaults and the pinned tests mostly sit in the far classes
         best = max(valid, key=lambda c: (sum(2 if abs(r[2]) <= 1 else 1 for r in relations(c) - covered), max(c) - min(c), len(set(c)), sum(c)))
         if chosen and not (relations(best) - covered):
+            if tier == "quick" and k >= 2 and len(chosen) >= 2:
+                break       # every relation class that is admissible is covered
             # nothing new to cover: fill up with the most varied remaining ones
             best = max(valid, key=lambda c: (len(set(c)), sum(c)))
         chosen.append(best)
